@@ -201,4 +201,18 @@ CHECKS = {
         "assumptions": ["sets with an invalid selector are not placed in the cache (the lister aborts matching on them: outside this statement, see DESIGN)",
                         "real time is used only to wait for client-go's delayed re-add (backoff 5ms..; 10s deadline), never as an oracle by itself"] + COMMON_ASSUMPTIONS,
     },
+    "C20": {
+        "level": "exploration",
+        "rule": "case = a schedule of <= 20 ops over {source sends an event of type Added/Modified/Deleted/Bookmark/Error (payload: one of three "
+                "Advanced StatefulSets, a bookmark-style set, or a *metav1.Status for Error), consumer receives one event, consumer calls Stop "
+                "(twice: idempotence), source closes}; the harness owns the source watch (buffered channel, counted Stop) and the consumer. Oracle: "
+                "received events = a prefix of the sent ones with the same type and the equivalent built-in object (Status relayed unchanged); no "
+                "panic in the relay (recorded through a PanicHandler with ReallyCrash=false); after Stop the relay goroutine exits without the "
+                "consumer reading any further, after either ending the result channel is closed, the underlying Stop was called and no goroutine "
+                "remains in (*hijackWatch).receive (runtime.Stack; 10 s deadline, the parked frame is the synchronous witness). Non-trivial = the "
+                "schedule has an Error event, or a Stop while a sent event is unreceived; distinct = distinct schedule",
+        "legs": [{"test": "TestC20", "quick": {"checks": 6000}, "thorough": {"checks": 800000, "shards": 16}}],
+        "floors": {"has-error-event": 0.2, "stop-with-unreceived-events": 0.1},
+        "assumptions": ["the relay goroutine is the only asynchronous party; waits on it are bounded by a 10 s deadline and never decide alone"],
+    },
 }
